@@ -109,10 +109,11 @@ func (v *V) IsConst(names ...string) bool {
 
 // Resolver canonicalises expressions of one function (and its enclosing functions).
 type Resolver struct {
-	P     *Prog
-	F     *Func
-	defs  map[types.Object][]defSite
-	depth int
+	P       *Prog
+	F       *Func
+	defs    map[types.Object][]defSite
+	rdCache map[*ast.Ident]*defSite
+	depth   int
 }
 
 type defSite struct {
@@ -263,25 +264,14 @@ func (r *Resolver) Val(e ast.Expr) *V {
 				return &V{Kind: "var", Name: x.Name, Obj: o, Node: e}
 			}
 			if d, ok := r.SingleDef(o); ok && d.kind == "assign" && d.rhs != nil {
-				if d.idx < 0 {
-					v := r.Val(d.rhs)
+				if v := r.valOfDef(d, e); v != nil {
 					return v
 				}
-				rhs := unparen(d.rhs)
-				// comma-ok forms
-				if ix, ok := rhs.(*ast.IndexExpr); ok && d.n == 2 {
-					if _, isMap := info.TypeOf(ix.X).Underlying().(*types.Map); isMap {
-						k := "lookupval"
-						if d.idx == 1 {
-							k = "lookupok"
-						}
-						return &V{Kind: k, Args: []*V{r.Val(ix.X), r.Val(ix.Index)}, Node: e}
-					}
-				}
-				return &V{Kind: "tuple", Name: fmt.Sprint(d.idx), Args: []*V{r.Val(rhs)}, Node: e}
 			}
-			if d, ok := r.SingleDef(o); ok && (d.kind == "range-key" || d.kind == "range-val") {
-				return &V{Kind: "var", Name: x.Name, Obj: o, Node: e, Args: nil}
+			if d, ok := r.reachingDef(x, o); ok {
+				if v := r.valOfDef(d, e); v != nil {
+					return v
+				}
 			}
 			return &V{Kind: "var", Name: x.Name, Obj: o, Node: e}
 		case *types.PkgName:
@@ -510,4 +500,107 @@ func (p *Prog) NodeCalls(f *Func, n ast.Node, names ...string) bool {
 		}
 	}
 	return false
+}
+
+// valOfDef resolves a use through one definition site.
+func (r *Resolver) valOfDef(d defSite, e ast.Expr) *V {
+	if d.kind != "assign" || d.rhs == nil {
+		return nil
+	}
+	info := r.F.Info()
+	if d.idx < 0 {
+		return r.Val(d.rhs)
+	}
+	rhs := unparen(d.rhs)
+	if ix, ok := rhs.(*ast.IndexExpr); ok && d.n == 2 {
+		if t := info.TypeOf(ix.X); t != nil {
+			if _, isMap := t.Underlying().(*types.Map); isMap {
+				k := "lookupval"
+				if d.idx == 1 {
+					k = "lookupok"
+				}
+				return &V{Kind: k, Args: []*V{r.Val(ix.X), r.Val(ix.Index)}, Node: e}
+			}
+		}
+	}
+	if ta, ok := rhs.(*ast.TypeAssertExpr); ok && d.n == 2 {
+		k := "assertval"
+		if d.idx == 1 {
+			k = "assertok"
+		}
+		return &V{Kind: k, Name: typeString(info.TypeOf(ta.Type), modPath), Args: []*V{r.Val(ta.X)}, Node: e}
+	}
+	return &V{Kind: "tuple", Name: fmt.Sprint(d.idx), Args: []*V{r.Val(rhs)}, Node: e}
+}
+
+// reachingDef finds the unique definition of obj that reaches the use at id
+// (flow-sensitive, within one function body; anything else is left unresolved).
+func (r *Resolver) reachingDef(id *ast.Ident, obj types.Object) (defSite, bool) {
+	if r.rdCache == nil {
+		r.rdCache = map[*ast.Ident]*defSite{}
+	}
+	if d, ok := r.rdCache[id]; ok {
+		if d == nil {
+			return defSite{}, false
+		}
+		return *d, true
+	}
+	r.rdCache[id] = nil
+	ds := r.defs[obj]
+	if len(ds) < 2 || len(ds) > 12 {
+		return defSite{}, false
+	}
+	uf := r.P.EnclosingFunc(id)
+	if uf == nil {
+		return defSite{}, false
+	}
+	g := r.P.Graph(uf)
+	usePt, ok := g.Locate(id)
+	if !ok {
+		return defSite{}, false
+	}
+	type dp struct {
+		d  defSite
+		pt Point
+	}
+	var pts []dp
+	for _, d := range ds {
+		if d.node == nil || r.P.EnclosingFunc(d.node) != uf {
+			return defSite{}, false // defined or modified in another function literal
+		}
+		if d.kind == "zero" {
+			// var x T : located through its ValueSpec
+		}
+		pt, ok := g.Locate(d.node)
+		if !ok {
+			return defSite{}, false
+		}
+		pts = append(pts, dp{d, pt})
+	}
+	isDef := func(n ast.Node) bool {
+		for _, p := range pts {
+			if p.pt.B.Nodes[p.pt.I] == n {
+				return true
+			}
+		}
+		return false
+	}
+	var reaching []defSite
+	for _, p := range pts {
+		if p.pt == usePt {
+			// use inside the defining statement (x = f(x)): the def does not reach its own rhs
+			if !g.reach(p.pt.After(), usePt, nil, isDef) {
+				continue
+			}
+		}
+		if g.reach(p.pt.After(), usePt, nil, isDef) {
+			reaching = append(reaching, p.d)
+		}
+	}
+	if len(reaching) != 1 {
+		return defSite{}, false
+	}
+	d := reaching[0]
+	r.rdCache[id] = &d
+	return d, true
 }
